@@ -120,8 +120,14 @@ def run_recognise(case):
         return
     S.sample(case)
     rot = chord[k:] + chord[:k]
-    short, es = call(chords.determine, list(rot), True)
-    long_, el = call(chords.determine, list(rot), False)
+    # both forms are asked about the *same* chord object, as a caller would: the two answers must
+    # correspond position by position for that chord
+    same = list(rot)
+    short, es = call(chords.determine, same, True)
+    long_, el = call(chords.determine, same, False)
+    if same != list(rot):
+        engine.S.problem("determine(%r): the caller's chord afterwards" % (list(rot),), list(rot), same,
+                         detail="asking for the shorthand and then the long form of one chord object changed it")
     S.trans(2)
     tags = {"sh": sh, "k": k, "n": len(chord)}
     if es is not None:
@@ -196,8 +202,12 @@ def name_root_ok(long_name, short_name):
 
 def check_forms(S, chord, ni, np_, site):
     """Returns the short answer (or None)."""
-    short, es = call(chords.determine, list(chord), True, ni, np_)
-    long_, el = call(chords.determine, list(chord), False, ni, np_)
+    same = list(chord)
+    short, es = call(chords.determine, same, True, ni, np_)
+    long_, el = call(chords.determine, same, False, ni, np_)
+    if same != list(chord):
+        engine.S.problem("determine(%r, ni=%r, np=%r): the caller's chord afterwards" % (list(chord), ni, np_), list(chord), same,
+                         detail="asking for the shorthand and then the long form of one chord object changed it")
     S.trans(2)
     tags = {"n": len(chord)}
     if es is not None:
